@@ -34,6 +34,8 @@ def keys(tier):
         "nul-lead": bytes(4) + bytes(range(100, 128)),
     }
     ks["seedA"] = hashlib.sha256(b"C08-A-%d" % core.SEED).digest()
+    ks["ws-edges"] = b" \t" + bytes(range(2, 30)) + b"\r\n"       # keys are raw bytes: white space at either end is key material
+    ks["nl-tail"] = bytes(range(70, 101)) + b"\n"
     if tier == "thorough":
         ks["seedB"] = hashlib.sha256(b"C08-B-%d" % core.SEED).digest()
         ks["text"] = b"0123456789abcdef0123456789ABCDEF"
@@ -131,7 +133,7 @@ def _roundtrip(job, ctx):
                 continue
             if only and only != [n, pname]:
                 continue
-            if only == ["sessions"]:
+            if only in (["sessions"], ["sessions-after-failed-open"]):
                 continue
             case = _case(job, [n, pname])
             fp = "C08|%s|len%%16=%d|" % (method, n % 16)
@@ -221,11 +223,24 @@ def _roundtrip(job, ctx):
                 if prov.encrypt(sv.ciphertext) != p:
                     bad("xor-not-involution", "applying XOR twice is not the identity")
     # one KeyFile object over several sessions with the key file replaced in between: each session uses the key on disk
-    if not only or only == ["sessions"]:
+    for failed_first in (False, True):
+        tag = "sessions-after-failed-open" if failed_first else "sessions"
+        if only and only != [tag]:
+            continue
         okeys = [k for n, k in sorted(allkeys.items()) if k != key][:2]
-        kfs, spath = _keyfile(ctx, key, "sessions.key")
+        kfs, spath = _keyfile(ctx, key, "%s.key" % tag)
         p = patterns(40)["ramp"]
         prev = None
+        if failed_first:
+            # the object's first session fails (damaged key file); the file is then repaired
+            with open(spath, "wb") as fh:
+                fh.write(b"damaged")
+            try:
+                with kfs as c:
+                    c.encrypt(p, method=method)
+                ctx.violation("C08|%s|%s|damaged-accepted" % (method, tag), "a 7-byte key file was opened and used", _case(job, [tag]))
+            except Exception:  # noqa
+                pass
         for si, kbytes in enumerate([key] + okeys + [key]):
             with open(spath, "wb") as fh:
                 fh.write(kbytes)
@@ -240,17 +255,17 @@ def _roundtrip(job, ctx):
                         except Exception:  # noqa
                             old = None
             except Exception as exc:  # noqa
-                ctx.violation("C08|%s|sessions|raises" % method, "session %d on one KeyFile object raised %r" % (si, exc), _case(job, ["sessions"]))
+                ctx.violation("C08|%s|%s|raises" % (method, tag), "session %d on one KeyFile object raised %r" % (si, exc), _case(job, [tag]))
                 break
             ctx.transitions += 1
-            ctx.case((job["key"], method, "session", si), "session:%d" % si, True)
+            ctx.case((job["key"], method, tag, si), "session:%d" % si, True)
             refp = _try_ref(sv.method, kbytes, sv.ciphertext)
             if back != p or refp != p:
-                ctx.violation("C08|%s|sessions|stale-key" % method,
-                              "session %d of one KeyFile object (key file replaced before it) does not encrypt under the key now on disk" % si, _case(job, ["sessions"]))
+                ctx.violation("C08|%s|%s|stale-key" % (method, tag),
+                              "session %d of one KeyFile object (key file replaced before it) does not encrypt under the key now on disk" % si, _case(job, [tag]))
             if prev is not None and prev[0] != kbytes and old == p and sv.method == "aes":
-                ctx.violation("C08|%s|sessions|old-value-still-decrypts" % method,
-                              "a value made under the previous key still decrypts in session %d after the key file was replaced" % si, _case(job, ["sessions"]))
+                ctx.violation("C08|%s|%s|old-value-still-decrypts" % (method, tag),
+                              "a value made under the previous key still decrypts in session %d after the key file was replaced" % si, _case(job, [tag]))
             prev = (kbytes, sv)
     ctx.traces += 1
     ctx.sample({"key": job["key"], "method": method, "lengths": "0..%d" % job["max_len"], "patterns": sorted(patterns(1))})
